@@ -21,6 +21,7 @@ func init() {
 				"(NOFAIL) stores to a cache entry are dominated by 'the lookup returned no error', and a non-zero response code can only produce an error; " +
 				"(FRESH) a cached value is returned only under timeNow().Before(expiration), so a zero TTL is never served and expiry forces a new lookup; " +
 				"(SHARE) results handed out are shared with the cache: their only method, Targets, writes nothing reachable from them (C15.PURE), RoundTrip filters a clone, and no sort/copy/append/element store works in place on the slice resolveOne returns (it is the cache's own); " +
+				"(KEY) every cache operation of resolveOne is addressed by a struct value holding the name asked for and the record type asked for in two fields of their own, so two questions never share an entry; " +
 				"(RACE0) functions reachable from Resolve store to no package-level variable and to no Resolver field; the shared mutable state they touch is the LRU (internally locked, trusted) and the cacheValue fields (LOCK).",
 			Assumptions: []string{"hashicorp/golang-lru TwoQueueCache is safe for concurrent use", "sync.RWMutex semantics"},
 		},
@@ -47,6 +48,8 @@ func c16Rules(p *core.Prog, r *core.Run) {
 	}
 	r.Analysed(p.FuncName(one), p.FuncName(noc))
 	pkg := p.PkgFuncs(Ech)
+
+	c16CacheKey(p, r, one)
 
 	// --- LOCK
 	nAcc := 0
@@ -774,4 +777,68 @@ func firstTestDominates(p *core.Prog, cb, hdr *ssa.BasicBlock, body map[*ssa.Bas
 		}
 	}
 	return false
+}
+
+// c16CacheKey: an answer is filed under the question it answers. The key of
+// every cache operation in resolveOne is a struct value that carries the name
+// and the record type asked for in two fields of their own, so that two
+// different questions never share an entry (a key glued together from both,
+// or one that leaves a part out, lets one question's answer be served for
+// another).
+func c16CacheKey(p *core.Prog, r *core.Run, one *ssa.Function) {
+	var strs []*ssa.Parameter
+	for _, prm := range one.Params {
+		if b, ok := prm.Type().Underlying().(*types.Basic); ok && b.Kind() == types.String {
+			strs = append(strs, prm)
+		}
+	}
+	if len(strs) != 2 {
+		r.Undecided("C16.KEY", "resolveOne:question", p.Pos(one.Pos()), "resolveOne does not take exactly a name and a record type (%d string parameters)", len(strs))
+		return
+	}
+	mentions := func(v ssa.Value, prm *ssa.Parameter) bool {
+		return p.X(v).Any(func(e *core.Expr) bool { return e.Val == ssa.Value(prm) })
+	}
+	n := 0
+	for _, s := range allCalls(p, core.Closures(one)) {
+		if !matches(`\(\*.*lru\.\w+(\[.*\])?\)\.(Get|Add|Peek|Contains|ContainsOrAdd|PeekOrAdd|Remove)`, s.X.Name) {
+			continue
+		}
+		args := s.Instr.Common().Args
+		if len(args) < 2 {
+			continue
+		}
+		n++
+		key := args[1]
+		st, isStruct := key.Type().Underlying().(*types.Struct)
+		ok := false
+		why := "the key is not a struct value"
+		if isStruct {
+			nameF, typF := -1, -1
+			why = "no field holds the name alone and another the type alone"
+			for i := 0; i < st.NumFields(); i++ {
+				vals := core.StructFieldValues(key, i)
+				if len(vals) == 0 {
+					continue
+				}
+				allName, allTyp := true, true
+				for _, v := range vals {
+					mn, mt := mentions(v, strs[0]), mentions(v, strs[1])
+					allName = allName && mn && !mt
+					allTyp = allTyp && mt && !mn
+				}
+				if allName && nameF < 0 {
+					nameF = i
+				} else if allTyp && typF < 0 {
+					typF = i
+				}
+			}
+			ok = nameF >= 0 && typF >= 0
+		}
+		if ok {
+			why = "name and type each in a field of its own"
+		}
+		r.Check("C16.KEY", fmt.Sprintf("resolveOne:%s#%d", s.X.Name[strings.LastIndex(s.X.Name, ".")+1:], n), ok, p.InstrPos(s.Instr), "the cache is addressed by the question asked (%s): %s", why, short(p.X(key)))
+	}
+	r.Check("C16.KEY", "resolveOne:cache-operations", n >= 2, p.Pos(one.Pos()), "cache operations examined in resolveOne (%d)", n)
 }
